@@ -66,6 +66,12 @@ func (s *Scripted) Int63() int64 {
 	return value(s, c)
 }
 
+// Uint64: the real math/rand source is a Source64 too (rand.Rand.Uint64 calls it directly); one state update per call.
+func (s *Scripted) Uint64() uint64 {
+	v := uint64(s.Int63())
+	return v<<1 | v>>62&1
+}
+
 func value(s *Scripted, i int) int64 {
 	if Values != nil {
 		return Values(s, i) & (1<<63 - 1)
